@@ -32,11 +32,12 @@ def run_scenario(lines, release):
 
 def observe(out):
     """Parse replayer output into a dict."""
-    obs = {"results": [], "cells": [], "depth": None, "raw": out[-1500:]}
+    obs = {"results": [], "cells": [], "depth": None, "raw": out[-1500:], "dumps": []}
     ndump = 0
     for ln in out.splitlines():
         if ln.startswith("DEPTH "):
             ndump += 1
+            obs["dumps"].append([])
             if ndump == 2:
                 obs["first_cells"] = obs["cells"]
                 obs["cells"] = []
@@ -52,6 +53,8 @@ def observe(out):
                 obs["cells"].append(("real", bits, dbg))
             else:
                 obs["cells"].append((parts[2], txt, txt))
+            if obs["dumps"]:
+                obs["dumps"][-1].append(obs["cells"][-1])
         elif ln.startswith("VAR "):
             obs.setdefault("vars", []).append(ln[4:])
         elif ln.startswith("IP "):
@@ -103,12 +106,35 @@ def contradicts(expect, obs):
             m_ = re.search(r"val: (.*), msg:", last or "")
             if last is None or not last.startswith("err TypeErrorMsg") or m_ is None or not any(m_.group(1) == c_[2] for c_ in ops):
                 why.append("error %r does not report one of the operands %s" % (last, ops))
+        elif e[0] == "read_contract":
+            # dumps[0] / dumps[-1]: (remain, offset) on top before / after; results[e[2]] is the word's result; e[1] = requested bits
+            try:
+                rem0, off0 = int(obs["dumps"][0][0][1]), int(obs["dumps"][0][1][1])
+                rem1, off1 = int(obs["dumps"][-1][0][1]), int(obs["dumps"][-1][1][1])
+                res = obs["results"][e[2]]
+                n_ = int(e[1])
+                if res.startswith("ok"):
+                    if off1 - off0 != n_ or rem0 - rem1 != n_:
+                        why.append("successful read of %d bits moved the offset by %d (remain by %d)" % (n_, off1 - off0, rem0 - rem1))
+                elif res.startswith("err"):
+                    if off1 != off0 or rem1 != rem0:
+                        why.append("failing read (%s) moved the cursor: offset %d -> %d" % (res[:40], off0, off1))
+            except Exception as ex_:
+                why.append("could not evaluate read contract: %s" % ex_)
         elif e[0] == "depth":
             if obs["depth"] != e[1]:
                 why.append("depth %r != %r" % (obs["depth"], e[1]))
         elif e[0] == "err_mentions_one_of":
             if last is None or not last.startswith("err") or not any(t in last for t in e[1]):
                 why.append("error %r mentions none of %s" % (last, e[1]))
+        elif e[0] == "results_same_kind":
+            def kind_of(r):
+                if r is None:
+                    return None
+                return " ".join(r.split(" ")[:2]) if r.startswith("err") else r.split(" ")[0]
+            rs = [kind_of(obs["results"][i]) if i < len(obs["results"]) else None for i in e[1]]
+            if len(set(rs)) != 1:
+                why.append("outcome kinds differ: %s" % rs)
         elif e[0] == "results_equal":
             # e[1]: list of indices into obs['results'] that must be pairwise equal
             rs = [obs["results"][i] if i < len(obs["results"]) else None for i in e[1]]
